@@ -76,30 +76,57 @@ WITNESS_RAW = dict(ctrl="control", arity=2,
 
 # ----------------------------------------------------------------------------- generators (rng is duck-typed in batchie)
 
+UNEXPECTED = []          # (where, detail): a wrapper of the harness met a call form it could not read -- drained into a tie by run()
+
+
+def _choice_candidates(args, kwargs):
+    """the candidate array of a `Generator.choice` call, whatever positional / keyword form the caller used"""
+    if args:
+        return args[0]
+    return kwargs["a"]
+
+
 class RecordingRng:
-    """delegates `.choice` to a real numpy generator and records the returned indices"""
+    """delegates every call to a real numpy generator unchanged and records the indices `.choice` returns"""
 
     def __init__(self, rng):
         self.rng = rng
         self.calls = []
 
-    def choice(self, a, size=None, replace=True, **kw):
-        out = self.rng.choice(a, size, replace=replace, **kw)
-        self.calls.append([int(x) for x in np.atleast_1d(out)])
+    def choice(self, *args, **kwargs):
+        out = self.rng.choice(*args, **kwargs)
+        try:
+            self.calls.append([int(x) for x in np.atleast_1d(out)])
+        except Exception as e:
+            UNEXPECTED.append(("RecordingRng.choice", "%s: %s" % (type(e).__name__, e)))
         return out
+
+    def __getattr__(self, name):            # any other generator method: forwarded, noted
+        UNEXPECTED.append(("RecordingRng.%s" % name, "the hold-out used a generator method the harness does not record"))
+        return getattr(self.rng, name)
 
 
 class StubRng:
-    """`.choice(candidates, n, replace=False)` returns the wanted indices among the candidates"""
+    """`.choice(candidates, n, replace=False)` -- in any positional / keyword form -- returns the wanted indices among the candidates"""
 
     def __init__(self, wanted):
         self.wanted = set(int(i) for i in wanted)
         self.calls = []
+        self.fallback = np.random.default_rng(0)
 
-    def choice(self, a, size=None, replace=True, **kw):
-        out = np.array([int(i) for i in np.asarray(a) if int(i) in self.wanted], dtype=int)
-        self.calls.append([int(x) for x in out])
+    def choice(self, *args, **kwargs):
+        try:
+            a = _choice_candidates(args, kwargs)
+            out = np.array([int(i) for i in np.atleast_1d(np.asarray(a)) if int(i) in self.wanted], dtype=int)
+        except Exception as e:
+            UNEXPECTED.append(("StubRng.choice", "%s: %s" % (type(e).__name__, e)))
+            out = self.fallback.choice(*args, **kwargs)
+        self.calls.append([int(x) for x in np.atleast_1d(out)])
         return out
+
+    def __getattr__(self, name):
+        UNEXPECTED.append(("StubRng.%s" % name, "the hold-out used a generator method the stub does not prescribe"))
+        return getattr(self.fallback, name)
 
 
 # ----------------------------------------------------------------------------- the prepared screen and its split
@@ -433,16 +460,23 @@ def recording_model_class():
         class VerifRecordingSparseDrugCombo(M.SparseDrugCombo):
             received = []
 
-            def _add_observations(self, data):
-                n = int(np.asarray(data.sample_ids).shape[0])
-                type(self).received.append({
-                    "sample_ids": [int(x) for x in np.asarray(data.sample_ids)],
-                    "treatment_ids": [[int(x) for x in r] for r in np.asarray(data.treatment_ids).reshape(n, -1)],
-                    "sample_names": [str(x) for x in data.sample_names],
-                    "treatment_names": [[str(x) for x in r] for r in data.treatment_names],
-                    "treatment_doses": [[float(x) for x in r] for r in data.treatment_doses],
-                    "observations": [S.bits(x) for x in data.observations]})
-                return super()._add_observations(data)
+            def _add_observations(self, *args, **kwargs):
+                # signature-agnostic: the call is forwarded exactly as it came; the data argument is found by binding
+                try:
+                    import inspect
+                    data = inspect.signature(super()._add_observations).bind(*args, **kwargs).arguments["data"]
+                    n = int(np.asarray(data.sample_ids).shape[0])
+                    type(self).received.append({
+                        "sample_ids": [int(x) for x in np.asarray(data.sample_ids)],
+                        "treatment_ids": [[int(x) for x in r] for r in np.asarray(data.treatment_ids).reshape(n, -1)],
+                        "sample_names": [str(x) for x in data.sample_names],
+                        "treatment_names": [[str(x) for x in r] for r in data.treatment_names],
+                        "treatment_doses": [[float(x) for x in r] for r in data.treatment_doses],
+                        "observations": [S.bits(x) for x in data.observations]})
+                except Exception as e:
+                    UNEXPECTED.append(("VerifRecordingSparseDrugCombo._add_observations", "%s: %s" % (type(e).__name__, e)))
+                    type(self).received.append(None)
+                return super()._add_observations(*args, **kwargs)
         M.VerifRecordingSparseDrugCombo = cls = VerifRecordingSparseDrugCombo
     return cls
 
@@ -513,7 +547,8 @@ def train_stage(prep, stage, case, tmp, res, step):
                            [tuple(float(x) for x in r) for r in np.asarray(stage.treatment_doses)[m]],
                            [S.bits(x) for x in np.asarray(stage.observations)[m]]))
     rows = []
-    for rec in got:
+    readable = all(rec is not None for rec in got)
+    for rec in (got if readable else []):
         for i in range(len(rec["sample_ids"])):
             sname, sid = rec["sample_names"][i], rec["sample_ids"][i]
             if ref.s_id.get(sname) != sid:
@@ -530,7 +565,7 @@ def train_stage(prep, stage, case, tmp, res, step):
                              {"id": ref.t_id.get(key), "condition_of_that_id_in_prepared_screen": ref.t_inv.get(tid)}, signature=SIG_TRAIN)
                     return True
             rows.append((sname, tuple(rec["treatment_names"][i]), tuple(rec["treatment_doses"][i]), rec["observations"][i]))
-    if sorted(rows) != want_rows:
+    if readable and sorted(rows) != want_rows:
         res.fail("the rows reaching the model are not the observed rows of the training screen", c,
                  {"step": step, "n_received": len(rows)}, {"n_observed": len(want_rows)}, signature=SIG_TRAIN)
         return True
@@ -1097,6 +1132,11 @@ def run(ctx, res):
                 res.notes.append("cross-process reload not run: %s" % e)
     finally:
         shutil.rmtree(tmp, ignore_errors=True)
+    for n_, (where_, detail_) in enumerate(UNEXPECTED):
+        res.count("wrapper.unexpected-call")
+        if n_ < 3:
+            res.disagree("C03:harness-wrapper", {"wrapper": where_}, detail_[:300], "a call the wrapper can read")
+    del UNEXPECTED[:]
     if ctx.driver is not None:
         got = ctx.driver.ask([q[0] for q in queue])
         for (line, entries, case), g in zip(queue, got):
